@@ -179,6 +179,11 @@ func (e Float64Engine) Add(a Tensor, b Tensor, opts ...FuncOpt) (retVal Tensor, 
 	if reuse, safe, toReuse, incr, err = handleFuncOptsF64(a.Shape(), a.DataOrder(), opts...); err != nil {
 		return nil, errors.Wrap(err, "Unable to handle funcOpts")
 	}
+	if reuse != nil && (reuse.RequiresIterator() || !reuse.Shape().Eq(a.Shape())) {
+		// the vector kernels below run over the reuse tensor's whole window: leave views, masked and
+		// differently shaped destinations to the general engine, which iterates or refuses
+		return e.StdEng.Add(a, b, opts...)
+	}
 	if err = e.checkThree(a, b, reuse); err != nil {
 		return nil, errors.Wrap(err, "Failed checks")
 	}
